@@ -70,3 +70,30 @@ def post_structure(prog):
     builder = [c for c in b.calls_to("core::ops::function::Fn::call")]
     upd = b.calls_to("acmed::http::update_nonce")
     return b, sends, builder, upd
+
+
+def fresh_nonce_rule(ctx, rid):
+    """the nonce handed to the data builder is read from endpoint.nonce AFTER the last response refreshed it: every path from
+    an update_nonce call to the next builder call passes a read of endpoint.nonce that flows into the builder's nonce argument
+    (a nonce read once before the retry loop is replayed by every retransmission)"""
+    from ..flow import origins
+    from ..mir import op_local
+    prog = ctx.prog
+    ENDPOINT = "acmed::endpoint::Endpoint"
+    pb, sends, builder, upd = post_structure(prog)
+    for c in builder:
+        tl = op_local(c.args[1])
+        non_src = origins(pb, {"l": tl, "p": [{"f": 0, "tuple": True}]})
+        reads = []
+        for i in pb.live_blocks():
+            for st in pb.blocks[i]["stmts"]:
+                if st["s"] != "assign" or st["rv"]["k"] not in ("ref", "use") or st["lhs"]["l"] not in non_src.locals:
+                    continue
+                pl = st["rv"].get("place") or (st["rv"].get("op", {}).get("copy") or st["rv"].get("op", {}).get("move") or {"p": []})
+                if any(isinstance(e, dict) and e.get("adt") == ENDPOINT and e.get("n") == "nonce" for e in pl["p"]):
+                    reads.append(i)
+        ctx.require(rid, bool(reads), c.where(), "the builder's nonce argument is read from endpoint.nonce", [POST, "builder-nonce"])
+        for u in upd:
+            after = pb.reachable_after(u.bb, removed_nodes=reads)
+            ctx.require(rid, c.bb not in after, c.where(), "endpoint.nonce is re-read after each response's update_nonce before the next JWS is built (no replay of a used nonce)",
+                        [POST, "nonce-read-hoisted"])
